@@ -112,7 +112,9 @@ func (its *TransactionDatatype) BeginTransaction(
 	txCtx *TransactionContext,
 	newTxnOp bool,
 ) *TransactionContext {
-	if its.isLocked && its.txCtx == txCtx {
+	// only the goroutine that runs a transaction holds its (non-nil) context; a call outside any
+	// transaction never counts as being inside the current one
+	if txCtx != nil && its.txCtx == txCtx {
 		return nil // called after DoTransaction() succeeds.
 	}
 	its.txCtx = its.setTransactionContextAndLock(tag)
@@ -179,8 +181,8 @@ func (its *TransactionDatatype) unlock() {
 	if its.isLocked {
 		its.txCtx = nil
 		its.success = true
+		its.isLocked = false // before releasing: the next holder sets it again
 		its.mutex.Unlock()
-		its.isLocked = false
 	}
 }
 
